@@ -8,7 +8,7 @@ from .. import gen, impl, oracle, progs, ser, stream
 
 ID = "C11"
 LEVEL = "proof"
-PROPS_MODULE = "SymmModel.Props.C11All5"
+PROPS_MODULE = "SymmModel.Props.C11All6"
 THEOREMS = [
     "SymmModel.C11.bond_index_spec_qr",
     "SymmModel.C11.bond_index_spec_svd",
@@ -77,10 +77,14 @@ THEOREMS = [
     "SymmModel.C11.svd_truncated_structure",
     "SymmModel.C11.singular_values_inherit_truncated",
     "SymmModel.C11.u_vh_blocks_orthonormal_truncated",
-    "SymmModel.C11.svd_truncated_isometry_fermionic"
+    "SymmModel.C11.svd_truncated_isometry_fermionic",
+    "SymmModel.C11.qr_isometry_fermionic_everywhere",
+    "SymmModel.C11.svd_isometry_fermionic_everywhere",
+    "SymmModel.C11.svd_truncated_isometry_fermionic_everywhere",
+    "SymmModel.C11.solve_solves_tensordotF_labelled_all_modes"
 ]
-LEAN_FILES = ["SymmModel.Props.C11", "SymmModel.Proofs.LinalgLemmas", "SymmModel.Proofs.LinalgFactors", "SymmModel.Proofs.LinalgDense", "SymmModel.Proofs.LinalgSolve", "SymmModel.Proofs.LinalgTrunc", "SymmModel.Proofs.LinalgRecon", "SymmModel.Proofs.LinalgFermi", "SymmModel.Proofs.LinalgSolveRecon", "SymmModel.Props.C11b", "SymmModel.Props.C11All", "SymmModel.Proofs.LinalgMore", "SymmModel.Proofs.LinalgMore2", "SymmModel.Proofs.LinalgMore3", "SymmModel.Proofs.LinalgMore6", "SymmModel.Props.C11c", "SymmModel.Props.C11d", "SymmModel.Props.C11All2", "SymmModel.Proofs.ReconLabels", "SymmModel.Proofs.ReconSvd", "SymmModel.Proofs.ReconTrunc", "SymmModel.Proofs.ReconSolve", "SymmModel.Proofs.ReconEigh", "SymmModel.Props.C11e", "SymmModel.Props.C11All3", "SymmModel.Proofs.Recon2Core", "SymmModel.Proofs.Recon2Modes", "SymmModel.Proofs.Recon2Solve", "SymmModel.Props.C11f", "SymmModel.Props.C11All4", "SymmModel.Proofs.Recon3Core", "SymmModel.Proofs.Recon3Trunc", "SymmModel.Proofs.Recon3Iso", "SymmModel.Proofs.Recon3Prod", "SymmModel.Props.C11g", "SymmModel.Props.C11All5", "SymmModel.Proofs.DecompTransfer", "SymmModel.Proofs.DecompTdot", "SymmModel.Proofs.DecompGram", "SymmModel.Proofs.DecompIso", "SymmModel.Proofs.DecompIsoA", "SymmModel.Proofs.DecompTrunc", "SymmModel.Proofs.DecompEigh"]
-PLANNED = ["isometry theorems state the products on the bond sectors of stored/kept blocks", "that every OTHER sector of q-dagger.q is zero is not yet stated (lemma gradedContract_miss available)", "solve with a labelled matrix through tensordot"]
+LEAN_FILES = ["SymmModel.Props.C11", "SymmModel.Proofs.LinalgLemmas", "SymmModel.Proofs.LinalgFactors", "SymmModel.Proofs.LinalgDense", "SymmModel.Proofs.LinalgSolve", "SymmModel.Proofs.LinalgTrunc", "SymmModel.Proofs.LinalgRecon", "SymmModel.Proofs.LinalgFermi", "SymmModel.Proofs.LinalgSolveRecon", "SymmModel.Props.C11b", "SymmModel.Props.C11All", "SymmModel.Proofs.LinalgMore", "SymmModel.Proofs.LinalgMore2", "SymmModel.Proofs.LinalgMore3", "SymmModel.Proofs.LinalgMore6", "SymmModel.Props.C11c", "SymmModel.Props.C11d", "SymmModel.Props.C11All2", "SymmModel.Proofs.ReconLabels", "SymmModel.Proofs.ReconSvd", "SymmModel.Proofs.ReconTrunc", "SymmModel.Proofs.ReconSolve", "SymmModel.Proofs.ReconEigh", "SymmModel.Props.C11e", "SymmModel.Props.C11All3", "SymmModel.Proofs.Recon2Core", "SymmModel.Proofs.Recon2Modes", "SymmModel.Proofs.Recon2Solve", "SymmModel.Props.C11f", "SymmModel.Props.C11All4", "SymmModel.Proofs.Recon3Core", "SymmModel.Proofs.Recon3Trunc", "SymmModel.Proofs.Recon3Iso", "SymmModel.Proofs.Recon3Prod", "SymmModel.Props.C11g", "SymmModel.Props.C11All5", "SymmModel.Proofs.DecompTransfer", "SymmModel.Proofs.DecompTdot", "SymmModel.Proofs.DecompGram", "SymmModel.Proofs.DecompIso", "SymmModel.Proofs.DecompIsoA", "SymmModel.Proofs.DecompTrunc", "SymmModel.Proofs.DecompEigh", "SymmModel.Props.C11h", "SymmModel.Proofs.SmallIso"]
+PLANNED = []
 RULE = ("random abelian and fermionic matrices (all symmetries; direct or obtained by fusing rank-3/4 arrays; every "
         "dualness pattern and total charge incl. odd; tall, wide, square and rank-deficient blocks; missing blocks; "
         "real/complex; pending signs): qr (plain and stabilised), svd, eigh (Hermitian charge-zero), solve. The "
